@@ -10,7 +10,7 @@ def J(id, fn, params=None, required=True, timeout=300, engine='S', mem_gb=8):
 
 
 # ------------------------------------------------------------------------------------------------ S1: codec
-DEC_SKELETONS_QUICK = ['1', '4', '5', '1,4', '4;5', '4:2111', '5:11121', '1,,4', ';;4', '4,1;1', '4:1211,4']
+DEC_SKELETONS_QUICK = ['1', '4', '5', '1,4', '4;5', '4:2111', '5:11121', '1,,4', ';;4', '4,1;1', '4:1211,4', '4,;4', '4,,;1', '5;,4']
 DEC_SKELETONS_THOROUGH = ['4:3111', '5:11113', '4:2222', '1:3', '4,4,4', '5;5;5', '4:1311;;4', '1,4,5', ',,;;4:2111,,1', '5:22222', '4:1111,5:21112;1:2']
 
 
@@ -19,7 +19,7 @@ def codec_c12(tier, seed):
             J('vlq_kernel_release', 'jobs.codec:vlq_kernel', dict(bits=30, flavour='mir_rel'), timeout=120)]
     for sk in DEC_SKELETONS_QUICK:
         jobs.append(J('decoder_format[%s]' % sk, 'jobs.codec:decoder_format', dict(skeleton=sk), timeout=300))
-    for shape, bits in [([4], 5), ([5], 5), ([1], 6), ([1, 4], 3), ([4, 1], 3), ([4, 4], 2)]:
+    for shape, bits in [([4], 5), ([5], 5), ([1], 6), ([1, 4], 3), ([4, 1], 3), ([4, 4], 2), ([5, 4], 2), ([4, 5], 2), ([5, 5], 1), ([5, 1, 4], 1)]:
         jobs.append(J('roundtrip%s/b%d' % (shape, bits), 'jobs.codec:roundtrip', dict(shape=shape, bits=bits), timeout=400))
     for shape, bits in [([4], 5), ([4, 4], 3), ([5, 1], 3)]:
         jobs.append(J('lines_only%s/b%d' % (shape, bits), 'jobs.codec:lines_only', dict(shape=shape, bits=bits), timeout=400))
@@ -46,6 +46,9 @@ def codec_c17(tier, seed):
             digs = ['1'] * 5; digs[slot] = 'x'
             sk = '5:' + 'x'       # placeholder, real skeleton built below
             jobs.append(J('decoder_run[slot%d,cont%d]' % (slot, c), 'jobs.codec:decoder_long_run', dict(slot=slot, cont=c), timeout=200))
+    for sk in ('2', '3', '6', '7', '2;6', '8'):
+        jobs.append(J('decoder_run[%s]' % sk, 'jobs.codec:decoder_run', dict(skeleton=sk), timeout=200))
+        jobs.append(J('decoder_run[%s]/release' % sk, 'jobs.codec:decoder_run', dict(skeleton=sk, flavour='mir_rel'), timeout=200))
     jobs.append(J('decoder_run[slot0,cont13]/release', 'jobs.codec:decoder_long_run', dict(slot=0, cont=13, flavour='mir_rel'), timeout=200))
     if tier == 'thorough':
         jobs.append(J('decoder_bytes[4]', 'jobs.codec:decoder_bytes', dict(length=4), required=False, timeout=1200))
